@@ -6,3 +6,8 @@ import MimicProps.C03
 #print axioms MimicProps.C03.resp_callOps
 #print axioms MimicProps.C03.response_accepted
 #print axioms MimicProps.C03.resp_good
+#print axioms MimicProps.C03.ok_roundtrip
+#print axioms MimicProps.C03.eof_roundtrip
+#print axioms MimicProps.C03.err_roundtrip
+#print axioms MimicProps.C03.coldef_roundtrip
+#print axioms MimicProps.C03.packet_kinds_distinct
